@@ -1,11 +1,21 @@
 pub type Coin = BigNum;
 #[verifier::external_body] pub struct Address { _p: core::marker::PhantomData<u8> }
 #[verifier::external_body] pub struct MultiAsset { _p: core::marker::PhantomData<u8> }
-#[verifier::external_body] pub struct DataOption { _p: core::marker::PhantomData<u8> }
 #[verifier::external_body] pub struct ScriptRef { _p: core::marker::PhantomData<u8> }
 #[verifier::external_body] pub struct CborContainerType { _p: core::marker::PhantomData<u8> }
 
 /// length of the shortest CBOR unsigned-integer head (cross-checked against the real cbor_event by Kani: kani:lib_level:bignum_cbor_roundtrip)
 pub open spec fn uint_len(c: u64) -> nat {
     if c <= 23 { 1 } else if c < 0x100 { 2 } else if c < 0x10000 { 3 } else if c < 0x1_0000_0000 { 5 } else { 9 }
+}
+
+// ---- output builder (min-coin helper) ----
+#[verifier::external_body] pub struct DataHash { _p: core::marker::PhantomData<u8> }
+#[verifier::external_body] pub struct PlutusData { _p: core::marker::PhantomData<u8> }
+clone_eq!(Address, MultiAsset, DataHash, PlutusData, ScriptRef, Value, TransactionOutputAmountBuilder);
+/// the fixed 57-byte base address / 1 ADA output the calculator starts from (`create_fake_output`: parses a literal bech32 string)
+pub uninterp spec fn fake_output() -> TransactionOutput;
+impl MinOutputAdaCalculator {
+    #[verifier::external_body] pub fn create_fake_output() -> (r: Result<TransactionOutput, JsError>)
+        ensures r is Ok ==> r->Ok_0 == fake_output(), fake_output().plutus_data is None, fake_output().script_ref is None, fake_output().serialization_format is None { unimplemented!() }
 }
